@@ -154,8 +154,7 @@ def main():
                 evals += v
                 n += 1
         for f in o["fails"] or []:
-            rep.failed_ob(Finding("C07", f"C07/rtc/{f['contract']}", f"{o['prog']}|{f['contract']}", f"{o['prog']}: {f['msg']}", replay={"program": o["prog"], "source": next(p['src'] for p in ps if p['name'] == o['prog'])}, replayed=True))
-            rep.obligations -= 1
+            rep.bounded_violation(Finding("C07", f"C07/rtc/{f['contract']}", f"{o['prog']}|{f['contract']}", f"{o['prog']}: {f['msg']}", replay={"program": o["prog"], "source": next(p['src'] for p in ps if p['name'] == o['prog'])}, replayed=True))
         if o["outcome"] and o["outcome"].startswith("timeout"):
             rep.undecided_ob(f"C07/rtc/{o['prog']}", "the compiler did not finish within the time limit on this regex")
         if o["outcome"] and o["outcome"].startswith("internal"):
